@@ -298,6 +298,28 @@ Definition simplify2_g (fx : bool) (pat : string) (tree1 : sx) (tree2 : string -
     end in
   if String.eqb final "" || String.eqb final pat then None else Some final.
 
+(* ---------- where the checker reacts (VisitExpr's switch on the callee name) ----------
+   Every entry point of package regexp that takes a pattern, with the dialect its argument is compiled in.
+   The property, the matcher model and all theorems are about the Perl dialect (regexp.Compile); POSIX
+   call sites (other syntax, leftmost-longest) are outside the claim, so the checker must stay silent there. *)
+Inductive dialect := Perl | Posix.
+
+Definition pattern_calls : list (string * option dialect) :=
+  [("regexp.Compile", Some Perl); ("regexp.MustCompile", Some Perl);
+   ("regexp.CompilePOSIX", Some Posix); ("regexp.MustCompilePOSIX", Some Posix);
+   ("regexp.Match", Some Perl); ("regexp.MatchString", Some Perl); ("regexp.MatchReader", Some Perl);
+   ("regexp.QuoteMeta", None)].
+
+Definition reacting_calls : list string := ["regexp.Compile"; "regexp.MustCompile"].
+Definition reacts (call : string) : bool := mem call reacting_calls.
+
+Fixpoint call_dialect_in (t : list (string * option dialect)) (call : string) : option dialect :=
+  match t with
+  | [] => None
+  | (n, d) :: r => if String.eqb call n then d else call_dialect_in r call
+  end.
+Definition call_dialect := call_dialect_in pattern_calls.
+
 (* ---------- walk_a: the same traversal producing trees ---------- *)
 
 Definition mk (o : op) (v : string) (args : list sx) : sx := X o v args.
